@@ -126,10 +126,10 @@ def check_state(acc: core.Acc, spec, history: list) -> None:
     spec = tuple(spec)
     ref = reference(spec)
     case = {'input': list(spec), 'history': list(history)}
-    lay = spec[1] if spec[0] == 'synth' else 'sample'
+    lay = 'sample' if spec[0] != 'synth' else spec[1] if spec[1] in ('chaos', 'vitamin') else 'std'
 
     def fail(kind, detail, **sig):
-        acc.fail(kind, case, f'input={input_name(spec)} history={history}: {detail}', layout=lay, **sig)
+        acc.fail(kind, case, f'input={input_name(spec)} history={history}: {detail}', layout_class=lay, **sig)
 
     acc.evaluations += 1
     if history:
@@ -260,7 +260,8 @@ def check_reader_vs_encoder(acc: core.Acc, spec) -> None:
         diff = G.first_diff(world.get(name), obs.get(name), name)
         if diff:
             acc.fail('reader_vs_encoder', case, f'input={input_name(spec)}: library reader disagrees with the independent encoder at {diff}',
-                     view=name, field=strip_idx(diff.split(':')[0]), layout=spec[1])
+                     view=name, field=strip_idx(diff.split(':')[0]),
+                     layout_class=spec[1] if spec[1] in ('chaos', 'vitamin') else 'std')
     acc.evaluations += 1
 
 
@@ -467,14 +468,18 @@ def all_inputs() -> list:
 def run(ctx: core.Ctx) -> None:
     inputs = all_inputs()
     def variant(s):
-        return ('none', 0) if s[0] == 'sample' else (s[2], s[3])
+        if s[0] == 'sample':
+            return ('none', 0) if s[1] > 0 else ('full-sample', 0)
+        return (s[2], s[3])
     if ctx.quick:
         table = {('none', 0): 3, ('none', 1): 1, ('one', 0): 1, ('one', 1): 1, ('all', 1): 1, ('all', 0): 0}
         # the LZMA code path does not depend on the lump layout except for the L4D2 header order
         inputs = [s for s in inputs if variant(s)[0] != 'all' or s[1] in ('v20', 'l4d2')]
         deadline = ctx.t0 + 600
     else:
-        table = {('none', 0): None, ('none', 1): 3, ('one', 0): 3, ('one', 1): 3, ('all', 1): 2, ('all', 0): 1}
+        table = {('none', 0): None, ('none', 1): 3, ('one', 0): 3, ('one', 1): 3, ('all', 1): 2, ('all', 0): 1,
+                 ('full-sample', 0): 1}
+        inputs.append(('sample', 0))     # the untrimmed 824 KB sample (0.7 s per entity-lump parse)
         deadline = ctx.t0 + 14 * 60
 
     def depth_of(s):
@@ -497,7 +502,7 @@ def run(ctx: core.Ctx) -> None:
                         if ctx.quick else
                         'thorough: the full reachable graph for the sample and the 7 uncompressed files, histories of <= 3 reads '
                         'for the 21 partly compressed files, <= 2 reads (LZMA game lumps) / <= 1 read (raw game lumps) for the 14 '
-                        'fully compressed ones. ') +
+                        'fully compressed ones, <= 1 read for the untrimmed sample. ') +
         'In every state: save -> own container parse + re-read -> header/lump versions/flags equal, view-less lumps '
         'byte-identical, views observer-equal (index form), second save of the re-read file byte-identical, second save of '
         'the same object byte-identical (these two clauses only in the initial state on fully compressed files), re-reading '
